@@ -243,7 +243,7 @@ PLANS["C05"] = {
 PLANS["C06"] = {
     "require_ops": ['render', 'htmlopts'],
     "facets": "none",
-    "own": ["out.html", "out.errtext"],
+    "own": ["out.html", "out.errtext", "res.lexer"],
     "mc": [{
         "module": "MCRender",
         "quick": _rmc("html", '{"E", "x", "LT"}', 2, 2, "{}", "{}", "{0, 1, 2}", '{"none", "all", "gen0", "regen"}'),
